@@ -1570,6 +1570,174 @@ pub fn function_value_family() -> Vec<Prog> {
   out
 }
 
+
+// ------------------------------------------------------------------------------------------------
+// Vec.eq over vectors of equal contents built along different routes
+// ------------------------------------------------------------------------------------------------
+
+/// Two vectors with the same (or nearly the same) contents, built along different routes (pushes,
+/// Vec.of, withCapacity, reserve, grown and popped back, overwritten with set) and with the element
+/// values spelled differently on the two sides (literal, comparison, negation, conjunction, call):
+/// `a.eq(b)` and `b.eq(a)` for every pair of routes, plus vectors that differ in the last element or
+/// in length.
+pub fn vec_eq_family() -> Vec<Prog> {
+  // spellings of the bool values true / false and of the ints 1, 2, 3 (i is 7 at run time)
+  let bool_spellings: [(&str, [&str; 2]); 5] = [
+    ("literal", ["true", "false"]),
+    ("comparison", ["(i > 5)", "(i <= 5)"]),
+    ("negation", ["!(i <= 5)", "!(i > 5)"]),
+    ("connective", ["(i > 5 && i < 9)", "(i < 5 || i > 9)"]),
+    ("call", ["Main.yes(i)", "Main.no(i)"]),
+  ];
+  let int_spellings: [(&str, [&str; 3]); 2] = [("literal", ["1", "2", "3"]), ("computed", ["(i - 6)", "(i - 5)", "(i / 2)"])];
+  let routes = ["push", "of", "withCapacity", "reserve", "grown-and-popped", "set"];
+  // statements that build `name` with the given element expressions along `route`
+  let build = |name: &str, ety: &str, route: &str, elems: &[String], filler: &str| -> String {
+    let mut t = String::new();
+    match route {
+      "of" if !elems.is_empty() => {
+        t.push_str(&format!("    let {name} = Vec.of({});\n", elems[0]));
+        for e in &elems[1..] {
+          t.push_str(&format!("    {name}.push({e});\n"));
+        }
+      }
+      "withCapacity" => {
+        t.push_str(&format!("    let {name} = Vec.withCapacity<{ety}>(8);\n"));
+        for e in elems {
+          t.push_str(&format!("    {name}.push({e});\n"));
+        }
+      }
+      "reserve" => {
+        t.push_str(&format!("    let {name} = Vec.empty<{ety}>();\n"));
+        for e in elems {
+          t.push_str(&format!("    {name}.push({e});\n"));
+        }
+        t.push_str(&format!("    {name}.reserve(16);\n"));
+      }
+      "grown-and-popped" => {
+        t.push_str(&format!("    let {name} = Vec.empty<{ety}>();\n"));
+        for e in elems {
+          t.push_str(&format!("    {name}.push({e});\n"));
+        }
+        for _ in 0..3 {
+          t.push_str(&format!("    {name}.push({filler});\n"));
+        }
+        for _ in 0..3 {
+          t.push_str(&format!("    let _ = {name}.pop();\n"));
+        }
+      }
+      "set" => {
+        t.push_str(&format!("    let {name} = Vec.empty<{ety}>();\n"));
+        for _ in elems {
+          t.push_str(&format!("    {name}.push({filler});\n"));
+        }
+        for (k, e) in elems.iter().enumerate() {
+          t.push_str(&format!("    {name}.set({k}, {e});\n"));
+        }
+      }
+      _ => {
+        t.push_str(&format!("    let {name} = Vec.empty<{ety}>();\n"));
+        for e in elems {
+          t.push_str(&format!("    {name}.push({e});\n"));
+        }
+      }
+    }
+    t
+  };
+  let mut out = vec![];
+  let mut emit = |kind: &str, ety: &str, left_name: &str, right_name: &str, left: Vec<String>, right: Vec<String>, other_last: String, filler: &str| {
+    let n = left.len();
+    let mut body = String::from("    let i = \"7\".toInt();\n");
+    for (k, r) in routes.iter().enumerate() {
+      body.push_str(&build(&format!("a{k}"), ety, r, &left, filler));
+      body.push_str(&build(&format!("b{k}"), ety, r, &right, filler));
+    }
+    // a vector that differs in the last element, and one that is one element shorter / longer
+    let mut diff = right.clone();
+    if let Some(l) = diff.last_mut() {
+      *l = other_last.clone();
+    }
+    body.push_str(&build("d", ety, "push", &diff, filler));
+    let mut longer = right.clone();
+    longer.push(other_last.clone());
+    body.push_str(&build("l", ety, "withCapacity", &longer, filler));
+    for k in 0..routes.len() {
+      for m in 0..routes.len() {
+        body.push_str(&format!("    Process.println(\"{} {} \" :: Main.b(a{k}.eq(b{m})) :: Main.b(b{m}.eq(a{k})));\n", routes[k], routes[m]));
+      }
+      body.push_str(&format!("    Process.println(\"{} other \" :: Main.b(a{k}.eq(d)) :: Main.b(d.eq(a{k})) :: Main.b(a{k}.eq(l)) :: Main.b(l.eq(a{k})) :: Main.b(a{k}.eq(a{k})));\n", routes[k]));
+    }
+    let text = format!(
+      "class Main {{\n  function yes(i: int): bool = i == 7\n  function no(i: int): bool = i != 7\n  function b(x: bool): Str = if x {{ \"T\" }} else {{ \"F\" }}\n  function main(): unit = {{\n{body}  }}\n}}\n"
+    );
+    out.push(Prog { family: "vec-eq", shape: format!("{kind} elements, {left_name} vs {right_name}"), name: format!("vec eq {kind} n={n} {left_name} vs {right_name}"), text });
+  };
+  let truth = [true, false, true];
+  for n in 0..=3usize {
+    for (ln, l) in bool_spellings {
+      for (rn, r) in bool_spellings {
+        let left: Vec<String> = truth[..n].iter().map(|t| l[if *t { 0 } else { 1 }].to_string()).collect();
+        let right: Vec<String> = truth[..n].iter().map(|t| r[if *t { 0 } else { 1 }].to_string()).collect();
+        // the differing last element: the opposite truth value, spelled like the right side
+        let opposite = if n > 0 && truth[n - 1] { r[1] } else { r[0] };
+        emit("bool", "bool", ln, rn, left, right, opposite.to_string(), l[0]);
+      }
+    }
+    for (ln, l) in int_spellings {
+      for (rn, r) in int_spellings {
+        let left: Vec<String> = l[..n].iter().map(|x| x.to_string()).collect();
+        let right: Vec<String> = r[..n].iter().map(|x| x.to_string()).collect();
+        emit("int", "int", ln, rn, left, right, "9".to_string(), "0");
+      }
+    }
+  }
+  out
+}
+
+// ------------------------------------------------------------------------------------------------
+// methods as values and bounded generics over generic classes
+// ------------------------------------------------------------------------------------------------
+
+/// Method references `receiver.method` (no call) over receivers of generic / non-generic struct and
+/// enum classes, methods with their own type parameters, tail-recursive methods; and bounded generic
+/// functions, methods and classes instantiated with *instantiated generic classes*.
+pub fn method_value_family() -> Vec<Prog> {
+  let prelude = "interface Show { method show(): Str }\nclass Box<T>(val v: T) : Show {\n  method get(): T = this.v\n  method show(): Str = \"box\"\n  method <R> pair(r: R): Pair2<T, R> = Pair2.init(this.v, r)\n  method count(i: int, acc: int): int = if i <= 0 { acc } else { this.count(i - 1, acc + 1) }\n}\nclass Pair2<A, B>(val a: A, val b: B) : Show {\n  method show(): Str = \"pair\"\n  method first(): A = this.a\n}\nclass Opt<T>(None, Some(T)) : Show {\n  method show(): Str = match this { None -> \"none\", Some(_) -> \"some\" }\n  method orElse(d: T): T = match this { None -> d, Some(t) -> t }\n}\nclass Counter(val step: int) : Show {\n  method show(): Str = \"counter\" :: Str.fromInt(this.step)\n  method count(i: int, acc: int): int = if i <= 0 { acc } else { this.count(i - 1, acc + this.step) }\n  method sumTo(other: Counter, i: int): int = if i <= 0 { this.step } else { other.sumTo(this, i - 1) }\n}\nclass Holder<T: Show>(val t: T) {\n  method describe(): Str = \"holder of \" :: this.t.show()\n  method <U: Show> both(u: U): Str = this.t.show() :: \"+\" :: u.show()\n}\nclass Util {\n  function <T: Show> describe(t: T): Str = \"it is \" :: t.show()\n  function <A: Show, B: Show> two(a: A, b: B): Str = a.show() :: \"&\" :: b.show()\n  function apply0(f: () -> int): int = f()\n  function apply2(f: (int, int) -> int): int = f(5, 0)\n}\n";
+  let cases: [(&str, &str); 22] = [
+    ("method of a generic struct class as a value", "let f = Box.init(41).get; Process.println(Str.fromInt(f() + 1));"),
+    ("method of a generic struct class at Str as a value", "let f = Box.init(\"s\").get; Process.println(f());"),
+    ("method of a generic class passed to a function", "Process.println(Str.fromInt(Util.apply0(Box.init(7).get)));"),
+    ("method of a two-parameter generic class as a value", "let f = Pair2.init(3, \"x\").first; Process.println(Str.fromInt(f()));"),
+    ("method of a generic enum class as a value", "let f = Opt.Some(5).orElse; Process.println(Str.fromInt(f(9)));"),
+    ("method of a generic enum class (nullary variant) as a value", "let f = Opt.None<int>().orElse; Process.println(Str.fromInt(f(9)));"),
+    ("generic method of a generic class as a value under a hint", "let f: (Str) -> Pair2<int, Str> = Box.init(1).pair; Process.println(f(\"r\").b);"),
+    ("interface method of a generic class as a value", "let f = Box.init(1).show; Process.println(f());"),
+    ("tail-recursive method as a value", "let f = Counter.init(2).count; Process.println(Str.fromInt(f(5, 0)));"),
+    ("tail-recursive method passed to a function", "Process.println(Str.fromInt(Util.apply2(Counter.init(3).count)));"),
+    ("tail-recursive method of a generic class as a value", "let f = Box.init(\"s\").count; Process.println(Str.fromInt(f(4, 0)));"),
+    ("tail-recursive method that swaps its receiver, as a value", "let f = Counter.init(1).sumTo; Process.println(Str.fromInt(f(Counter.init(2), 3)));"),
+    ("tail-recursive method called directly and as a value", "let c = Counter.init(2); let f = c.count; Process.println(Str.fromInt(c.count(3, 0) + f(3, 0)));"),
+    ("bounded generic function at an instantiated generic struct class", "Process.println(Util.describe(Box.init(1)));"),
+    ("bounded generic function at a nested instantiation", "Process.println(Util.describe(Box.init(Box.init(\"s\"))));"),
+    ("bounded generic function at a two-parameter generic class", "Process.println(Util.describe(Pair2.init(1, true)));"),
+    ("bounded generic function at a generic enum class", "Process.println(Util.describe(Opt.Some(1)) :: Util.describe(Opt.None<Str>()));"),
+    ("bounded generic function at the same generic class twice", "Process.println(Util.describe(Box.init(1)) :: Util.describe(Box.init(\"s\")) :: Util.describe(Counter.init(1)));"),
+    ("two bounded parameters, generic and non-generic class", "Process.println(Util.two(Box.init(1), Counter.init(2)) :: Util.two(Counter.init(3), Opt.Some(true)));"),
+    ("class-level bound at an instantiated generic class", "Process.println(Holder.init(Box.init(1)).describe());"),
+    ("method-level bound at an instantiated generic class", "Process.println(Holder.init(Counter.init(1)).both(Pair2.init(1, 2)) :: Holder.init(Opt.Some(1)).both(Box.init(2)));"),
+    ("bounded generic function as a value at an instantiated generic class", "let f: (Box<int>) -> Str = Util.describe; Process.println(f(Box.init(1)));"),
+  ];
+  cases
+    .iter()
+    .map(|(what, stmt)| Prog {
+      family: "method-value",
+      shape: what.to_string(),
+      name: format!("method value: {what}"),
+      text: format!("{prelude}class Main {{\n  function main(): unit = {{\n    {stmt}\n  }}\n}}\n"),
+    })
+    .collect()
+}
+
 pub fn all_families(thorough: bool) -> Vec<Prog> {
   let mut v = vec![];
   v.extend(type_shape_family(thorough));
@@ -1586,6 +1754,8 @@ pub fn all_families(thorough: bool) -> Vec<Prog> {
   v.extend(constant_parameter_family());
   v.extend(escape_family(thorough));
   v.extend(function_value_family());
+  v.extend(method_value_family());
+  v.extend(vec_eq_family());
   v.extend(vec_family(thorough));
   v.extend(string_family());
   v.extend(pattern_family());
